@@ -25,6 +25,8 @@ struct St {
     escw: bool,
     escm: bool,
     m_global: bool,
+    /// the global tuple holding a vec is defined
+    bk: bool,
     m_loaded: bool,
     m_v: i64,
     /// the module whose body throws was imported (and failed) since the last reset: what a further import
@@ -70,6 +72,9 @@ const SNIPPETS: &[(&str, &str)] = &[
     ("var_with_failing_initialiser", "var ug4 = [][3];\n"),
     ("probe_never_defined_globals", "try { print(ug1); } catch e { print(type(e)); }\ntry { print(ug2); } catch e { print(type(e)); }\ntry { print(ug3); } catch e { print(type(e)); }\ntry { print(ug4); } catch e { print(type(e)); }\ntry { print(Bad); } catch e { print(type(e)); }\ntry { ug1 = 1; } catch e { print(type(e)); }\n"),
     ("probe_every_built_in_name", CENSUS),
+    ("define_a_tuple_that_cannot_be_a_key", "var bk = ([1], 2);\nprint(bk);\n"),
+    ("use_it_as_a_key_uncaught", "var zzh = {\"other\": 1};\nzzh.insert(bk, 1);\nprint(\"not reached\");\n"),
+    ("probe_the_tuple", "print(bk);\nprint((bk, 3));\nvar zze = {};\ntry { zze.insert(bk, 1); } catch e { print(type(e)); }\nprint(bk == ([1], 2));\n"),
     ("import_m", "import \"m\";\nprint(m.v);\n"),
     ("bump_m", "m.v = m.v + 1;\nprint(m.v);\n"),
     ("import_m_then_fail", "import \"m\";\nm.v = m.v + 1;\nprint(m.v);\nprint(zz_never_defined);\n"),
@@ -307,6 +312,24 @@ fn step(s: &St, name: &str) -> (St, Vec<String>, String) {
             out.push(format!("{}", s.m_v));
             (n, out, ok)
         }
+        "define_a_tuple_that_cannot_be_a_key" => {
+            n.bk = true;
+            (n, vec!["([1], 2)".into()], ok)
+        }
+        "use_it_as_a_key_uncaught" => {
+            if s.bk {
+                (n, vec![], "Unhandled ValueError".into())
+            } else {
+                (n, vec![], name_err("bk"))
+            }
+        }
+        "probe_the_tuple" => {
+            if s.bk {
+                (n, vec!["([1], 2)".into(), "(([1], 2), 3)".into(), "<class ValueError>".into(), "true".into()], ok)
+            } else {
+                (n, vec![], name_err("bk"))
+            }
+        }
         "import_m_then_fail" | "import_m_in_a_function_then_fail" => {
             // what the snippet completed before it failed stays: the module is loaded (once), its state
             // changed, and - at top level - the name is bound
@@ -435,7 +458,7 @@ pub fn run(ctx: &Ctx) -> Report {
     expect::fill(
         &mut report,
         &stats,
-        "breadth-first search over histories of snippets fed to one interpreter, with canonical reference state (surviving globals, functions, classes, fiber objects, loaded modules); alphabet of 41 snippets: definitions and uses, a compile error, uncaught throws at top level / two calls deep / inside a fiber / inside try-finally / while a class is half-declared / from a built-in inside a method, clean try/finally, try/catch and class+loop probes, a fiber left suspended inside try/finally and resumed by a later snippet, probes of a fiber that died from an uncaught throw and of a chain of two such fibers (both must be finished), closures that escaped into globals from a call frame / a fiber discarded by an uncaught throw - the throwing one, and a fiber or a main-fiber frame that was waiting for it - and are called later (swept objects quarantined: any touch of freed memory is a violation), assignments to undefined globals that end the snippet (top level, in a call, in a fiber) and a `var` whose initialiser fails, with a probe that none of those names came into being, import and module mutation, a snippet that imports a module (at top level, inside a function), changes its state and then fails, imports that fail (a module that does not compile: the same ImportError every time; a module whose body throws: the thrown value at every attempt, the module is not loaded) with a probe that they bound nothing, a probe of every one of the 30 built-in names, reset. Every transition is replayed as the shortest history reaching its source state plus the snippet, on a fresh real interpreter; each snippet's printed lines and outcome must equal the model's; no snippet may panic. Because that search merges histories by model state, a second family runs every history up to length 3 (4) over the whole alphabet without merging, so that every snippet - in particular every failing one, which leaves the model state unchanged - is followed by every other.",
+        "breadth-first search over histories of snippets fed to one interpreter, with canonical reference state (surviving globals, functions, classes, fiber objects, loaded modules); alphabet of 44 snippets: definitions and uses, a compile error, uncaught throws at top level / two calls deep / inside a fiber / inside try-finally / while a class is half-declared / from a built-in inside a method, clean try/finally, try/catch and class+loop probes, a fiber left suspended inside try/finally and resumed by a later snippet, probes of a fiber that died from an uncaught throw and of a chain of two such fibers (both must be finished), closures that escaped into globals from a call frame / a fiber discarded by an uncaught throw - the throwing one, and a fiber or a main-fiber frame that was waiting for it - and are called later (swept objects quarantined: any touch of freed memory is a violation), assignments to undefined globals that end the snippet (top level, in a call, in a fiber) and a `var` whose initialiser fails, with a probe that none of those names came into being, import and module mutation, a snippet that imports a module (at top level, inside a function), changes its state and then fails, a global tuple that holds a vec, offered as a map key by a snippet that ends in the ValueError and printed / offered again later, imports that fail (a module that does not compile: the same ImportError every time; a module whose body throws: the thrown value at every attempt, the module is not loaded) with a probe that they bound nothing, a probe of every one of the 30 built-in names, reset. Every transition is replayed as the shortest history reaching its source state plus the snippet, on a fresh real interpreter; each snippet's printed lines and outcome must equal the model's; no snippet may panic. Because that search merges histories by model state, a second family runs every history up to length 3 (4) over the whole alphabet without merging, so that every snippet - in particular every failing one, which leaves the model state unchanged - is followed by every other.",
         json!({"history_length": depth, "snippets": SNIPPETS.len()}),
     );
     report.cov("states", json!(states));
